@@ -249,16 +249,29 @@ let expect_cfi (c : cfgs) ~(eh : bool) (script : sop list) (dbg : bool) : string
   with Model_panic -> "panic"
 
 (* ---- case emission ---- *)
+(* The driver prints case number i only when i mod nshards = shard, but Streams.both evaluates the model
+   before it knows; with 16 shards every case was evaluated 16 times. Mirror the driver's counter (argv:
+   gen <stream> <seed> <n> [shard nshards]) and skip the evaluation of cases that will be discarded. *)
+let shard, nshards =
+  match Array.to_list Sys.argv with
+  | _ :: "gen" :: _ :: _ :: _ :: a :: b :: _ -> (int_of_string a, int_of_string b)
+  | _ -> (0, 1)
+let counter = ref 0
+let both_lazy (emit : emit) (case : unit -> string) (f : bool -> string) =
+  let mine = !counter mod nshards = shard in
+  incr counter;
+  if mine then emit (case ()) (f true) (f false) else emit "" "" ""
+
 let b01 b = if b then "1" else "0"
 let head name ctx c = Printf.sprintf "%s %s %d %s %d %s" name ctx c.version (b01 c.fmt64) c.asize (b01 c.be)
 
 let emit_unit emit name ctx c ~kids ~holder ~other_mode script =
-  let case = String.concat " " ([head name ctx c; kids; soi holder; soi other_mode] @ tokens script) in
-  both emit case (fun dbg -> expect_unit ~ctx c ~kids ~holder ~other_mode script dbg)
+  let case () = String.concat " " ([head name ctx c; kids; soi holder; soi other_mode] @ tokens script) in
+  both_lazy emit case (fun dbg -> expect_unit ~ctx c ~kids ~holder ~other_mode script dbg)
 
 let emit_cfi emit name c ~kind ~eh script =
-  let case = String.concat " " ([head name "cfi" c; kind; b01 eh] @ tokens script) in
-  both emit case (fun dbg -> expect_cfi c ~eh script dbg)
+  let case () = String.concat " " ([head name "cfi" c; kind; b01 eh] @ tokens script) in
+  both_lazy emit case (fun dbg -> expect_cfi c ~eh script dbg)
 
 (* ---- generators ---- *)
 let p2 k = Z.shift_left Z.one k
@@ -474,5 +487,35 @@ let () =
           let s = if rand_int r 25 = 0 then Raw (rand_bytes r (rand_int r 6)) :: s else s in
           emit_unit emit name (if k < 5 then "loc" else "die") c ~kids ~holder ~other_mode s
       done)
+
+(* c15.nest: entry_value nested d times around reg5. Expected length: the model for d <= 400 (its recursion
+   depth is the nesting depth too), checked against the closed form s(0) = 1, s(k+1) = 1 + |uleb(s k)| + s k,
+   which alone is used for deeper cases. *)
+let () =
+  register "c15.nest" ~doc:"DW_OP_entry_value nested to a given depth, written as a DIE attribute; predicted length vs emitted; layers peeled back with the reader"
+    (fun ~seed:_ ~n emit ->
+      let closed d =
+        let s = ref 1 in
+        for _ = 1 to d do
+          let l = !s in
+          let ul = int_of_n (Leb.uleb128_size (n_of_int l)) in
+          s := 1 + ul + l
+        done; !s in
+      let case version d =
+        let c = { version; fmt64 = false; asize = 8; be = false } in
+        both_lazy emit (fun () -> Printf.sprintf "c15.nest %d %d" version d) (fun dbg ->
+          let cf = closed d in
+          if d <= 400 then begin
+            let rec nest k = if k = 0 then [WoRegister (n_of_int 5)] else [WoEntryValue (nest (k - 1))] in
+            match size_expr dbg (enc_of c) None (nest d) with
+            | Res.Ok s when int_of_n s = cf -> "ok " ^ string_of_int cf
+            | r -> "model-closed-form-differ " ^ res_str r string_of_n
+          end else "ok " ^ string_of_int cf) in
+      List.iter (fun v ->
+        List.iter (case v) [0; 1; 2; 3; 40; 41; 42; 43; 63; 64; 100; 127; 128; 200; 300; 400; 600])
+        [4; 5];
+      (* beyond what the recursion in Expression::{size, write} survives on an 8 MiB stack: known finding *)
+      if n >= 1 then case 5 100000;
+      if n >= 2 then case 4 2000)
 
 let init () = ()
